@@ -1720,6 +1720,8 @@ class Session:
                 if isinstance(c, list):
                     return all(any(contains(x, y) for x in t) for y in c)
                 return any(contains(x, c) for x in t)
+            if isinstance(t, str) and isinstance(c, str):  # JSON strings compare binary (CSStr / str subclasses included)
+                return str(t) == str(c)
             return type(t) is type(c) and t == c or (isinstance(t, (int, float)) and isinstance(c, (int, float))
                                                     and not isinstance(t, bool) and not isinstance(c, bool) and t == c)
 
